@@ -78,6 +78,18 @@ claims = {
          "every exported field of each handled instruction (60) is read or listed as meaningless; the converter reads FreeVars, AnonFuncs, Blocks, Signature and Recover of the function; directive values are bounded and unknown hardening names panic; "
          "trash guards draw from operators for which constant.Compare is false. Decides these clauses, not semantic preservation of flattening/splitting/junk/trash/hardening.",
          "type-switch case extraction, operand/field coverage and reachability on go/ssa", "4 C11"),
+ "C01": ("Decides agreement clauses between garble's renaming outside Go syntax and its single naming decision: hash funnel; the four out-of-syntax rename sites test compilerIntrinsics on the values they rename; only three functions hash a package's ImportPath "
+         "and all eight emitters take the path from obfuscatedImportPath; the linker patches read the variables garble exports, the entry-offset formula has the same operator tree on both sides and the patched anchors exist in the pinned toolchain; "
+         "all eleven documented naming exceptions are present (complete name lists); -X is duplicated under obfuscated path and name; qualified symbols are hashed with the package their path names. Decides these clauses, not program equivalence.",
+         "site-vs-site and table-vs-text agreement over go/ssa, go/ast and GOROOT sources", "4 C01"),
+ "C02": ("Decides must-pass-through and closed-set clauses: linker flags (-buildid=, -w, -s, buildVersion, importcfg) and compile flags (-dwarf=false, -p, -importcfg, -trimpath with the temp dir first) are data dependencies of every success return; "
+         "-trimpath/-buildvcs=false reach both go invocations; the per-file pipeline goes through transformDirectives, transformGoFile, the package rename and printFile; the default //line header precedes all copied bytes and both comment filters keep only //go:; "
+         "the importcfg has only two line kinds; asm files get hashed names; every 'keep the name' and 'skip the identifier' exit is a documented exception. Decides these clauses, not the bytes of any binary.",
+         "backward dependence of success returns, dominance and exit classification on go/ssa", "4 C02"),
+ "C09": ("Decides coverage clauses: literals.Obfuscate runs exactly under flagLiterals && ToObfuscate and its result is returned; the string rewrite is keyed on type information (not narrowed to a syntactic node kind) and replaces the node; "
+         "byte composites are handled as &lit and plain, arrays and slices; both paths test [8,2048]; skips are exactly nosplit/const/-X; the seed is read only by twelve reviewed functions and appendFlags is used only for the hash and -toolexec. "
+         "Decides these clauses, not which expressions go/types marks constant nor the bytes of any binary.",
+         "edge-fact and provenance checks on go/ssa; configuration read-set for the seed", "4 C09"),
 }
 
 checks = []
